@@ -579,15 +579,16 @@ def w4_w5(ctx, F):
                 cast = (n, pks)
     ok = cast is not None and set(cast[1]) >= {("lit", "K"), ("lit", "Q"), ("lit", "k"), ("lit", "q"), ("lit", "-")} and cast[1][-1] == "_" \
         and any(x.get("k") == "Ret" for x, _ in hir.walk(cast[0]["arms"][-1]["body"]))
-    if not ok:
-        # several matches / a validation pass before the setters: decide per character that an error return is reached
-        from . import p11
-        bv = p11.castling_unknown_refused(F, fn)
-        if bv is not None:
-            ok = not bv
-            cast = cast or (None, ["not refused: %s" % bv])
+    # by value where the letter loop can be evaluated (one match, several matches, a validation pass before the setters): per
+    # character, an error return is reached for a foreign character and for none of K Q k q -
+    from . import p11
+    bv = p11.castling_unknown_refused(F, fn)
+    if bv is not None:
+        ok = not bv
+        if bv:
+            cast = (cast[0] if cast else None, ["not refused / wrongly refused: %s" % bv])
     ctx.check("C17.W5", "castling-field-character-by-character", ok, fn=NEW, file=fn["file"], line=hir.line(cast[0]) if cast and cast[0] else None,
-              what="every character of the castling field must be one of KQkq- or the import must fail", found=[str(p) for p in cast[1]] if cast else None)
+              what="every character of the castling field must be one of K Q k q - (each of which is let through) or the import must fail", found=[str(p) for p in cast[1]] if cast else None)
 
 
 def _walk_pats(p):
